@@ -22,11 +22,11 @@ ASSUMPTIONS = [
     'an unhandled exception in the master = process exit + new master',
 ]
 TRUSTED = ['pbt/fakezk.py', 'pbt/mastersim.py']
-BUDGET = {'quick': 2400, 'thorough': 128000}
+BUDGET = {'quick': 4000, 'thorough': 128000}
 
 PROFILE = {
     'weights': {'restart': 3, 'reboot': 3, 'down': 3, 'up': 3, 'resize': 2,
-                'idg': 2, 'rm': 3, 'renew': 3, 'adv': 3, 'prio': 4, 'rmlast': 3, 'downseq': 4, 'freezeflip': 1, 'rmsrvrace': 3, 'priorm': 3,
+                'idg': 2, 'rm': 3, 'renew': 6, 'adv': 3, 'prio': 4, 'rmlast': 3, 'downseq': 4, 'freezeflip': 1, 'rmsrvrace': 3, 'priorm': 3,
                 'shrink': 2},
     'force': ['restart', 'downseq', 'rmsrvrace', 'priorm'],
     'min_servers': 2,
